@@ -79,9 +79,23 @@ def digest_state(s):
         typed = s.typed_serialize()
         # the public mappings themselves belong to the value: their key sets (a query must not leave empty groups behind)
         keys = [sorted(str(k) for k in s.state_predicates), sorted(str(k) for k in s.state_fluents)]
-        return json.dumps([sorted(facts), sorted((k, str(v)) for k, v in fl.items()), sorted(sexpr.tokenize(typed)), keys], default=str)
+        label = sexpr.read(s.serialize())[0]       # (:init or (:state: part of what a state prints as
+        return json.dumps([sorted(facts), sorted((k, str(v)) for k, v in fl.items()), sorted(sexpr.tokenize(typed)), keys, label], default=str)
     except Exception as e:  # noqa: a state that cannot be read is a digest of its own
         return "UNREADABLE:" + repr(e)[:200]
+
+
+def same_up_to_rounding(d1, d2):
+    """Two state digests that differ only in the last digits of fluent values: several increases of one fluent
+    are summed in the iteration order of a hash set, and float addition is not associative."""
+    try:
+        a, b = json.loads(d1), json.loads(d2)
+        if a[0] != b[0] or a[3:] != b[3:] or [k for k, _ in a[1]] != [k for k, _ in b[1]]:
+            return False
+        from fractions import Fraction
+        return all(abs(Fraction(x) - Fraction(y)) <= Fraction(1, 10 ** 9) * max(1, abs(Fraction(x))) for (_, x), (_, y) in zip(a[1], b[1]))
+    except Exception:
+        return False
 
 
 def digest_globals():
@@ -101,6 +115,8 @@ class World:
         self.domains = []      # (spec index, lib domain, objs)
         self.states = []       # (domain slot, lib state)
         self.operators = []    # (domain slot, action, args, op)
+        self.trajectories = [] # (domain slot, list of triplets) returned by the exporter
+        self.with_objects = set()   # ids of pooled operators that were given the object table (needed for forall effects)
         self.answers = {}      # (op slot, state slot) -> applicability
         self.results = {}      # (op slot, state slot, flags) -> digest of the returned state
         self.digests = {}
@@ -180,6 +196,8 @@ def run_history(case, res):
             o = Operator(dom.actions[name], dom, list(args), objs if op.get("with_objects", True) else None)
             lib_call(o.ground)
             W.operators.append((slot, name, args, o))
+            if op.get("with_objects", True):
+                W.with_objects.add(id(o))
         elif kind == "reground":
             # ground() is public and may be called again on an operator that was already grounded or used
             if not W.operators:
@@ -214,11 +232,24 @@ def run_history(case, res):
                 if "forall" in pddl.heads(a["eff"]):
                     applied_forall = True
                 # effects that conflict make the result order-dependent: only purity is checked for them
-                if key in W.results and W.results[key] != val and not conflicting(specs[W.domains[slot][0]], a, args, st):
+                if key in W.results and W.results[key] != val and not same_up_to_rounding(W.results[key], val) \
+                        and not conflicting(specs[W.domains[slot][0]], a, args, st):
                     res.bad("C07/repeated-apply-differs", {"step": step, "op": op, "first": W.results[key][:600], "now": val[:600]})
                     return feats
                 W.results[key] = val
                 if ok:
+                    # whatever happened earlier in the history (other domains parsed, combined, grounded ...), the
+                    # result is still this domain's successor
+                    acceptable = reference_outcomes(specs[W.domains[slot][0]], a, args, st) if id(o) in W.with_objects else None
+                    if acceptable:
+                        try:
+                            got_ref = read_lib_state(new)
+                        except Exception:
+                            got_ref = None
+                        if got_ref is not None and not any(pddl.states_equal(x, got_ref) for x in acceptable):
+                            res.bad("C07/apply-result-is-not-the-domain's-successor-after-this-history",
+                                    {"step": step, "op": op, "diff": pddl.state_diff(acceptable[0], got_ref)})
+                            return feats
                     W.states.append((W.states[sti][0], new))
         elif kind == "inplace_effect":
             # GroundedEffect.apply mutates the state it is given (public API, used by the repository's tests):
@@ -293,8 +324,19 @@ def run_history(case, res):
                 if okt:
                     for t in tr[-2:]:
                         W.states.append((slot, t.next_state))
+                    W.trajectories.append((slot, tr))
                     if any("forall" in pddl.heads(pddl.find_action(spec["dom"], n)["eff"]) for n, _ in plan):
                         applied_forall = True
+        elif kind == "reexport":
+            # a trajectory returned earlier is exported again, whole or from its k-th step on (a slice is a list of
+            # triplets like any other): the states it holds - pooled above - must keep their value and label
+            if not W.trajectories:
+                continue
+            slot, tr = W.trajectories[op["o"] % len(W.trajectories)]
+            dom = W.domains[slot][1]
+            k0 = op["c"] % max(1, len(tr))
+            lib_call(lambda: TrajectoryExporter(dom).export(tr[k0:]))
+            lib_call(lambda: TrajectoryExporter(dom).export(tr))
         elif kind == "combine":
             from pddl_plus_parser.multi_agent import MultiAgentDomainsConverter
             d = fresh_dir()
@@ -324,6 +366,23 @@ def rebuild_from_attributes(state):
         g.set_value(f.value)
         fl[key] = g
     return State(preds, fl, is_init=state.is_init)
+
+
+def reference_outcomes(spec, a, args, lib_state):
+    """The successor(s) the reference allows for applying `a` to the state (exact; under the K3 model too), or
+    None when it has no defined outcome there (conflicts, undefined fluents, float cancellation)."""
+    try:
+        st = read_lib_state(lib_state)
+        world = pddl.World(spec["dom"], spec["objects"])
+        env = {p: o for (p, _), o in zip(a["params"], args)}
+        out = [pddl.successor(a["eff"], env, st, world)]
+        if pddl.cancellation_in_effects(a["eff"], env, st, world):
+            return None
+        if ctx.active(S.F_NESTED):
+            out.append(pddl.successor(S.k3_effect(a["eff"]), env, st, world))
+        return out
+    except Exception:
+        return None
 
 
 def conflicting(spec, a, args, lib_state):
@@ -513,7 +572,7 @@ def gen(ch, tier):
     ops = [{"op": "parse_domain", "spec": 0}, {"op": "state", "d": 0, "s": 0, "via": "problem"}, {"op": "ground", "d": 0, "c": 0}]
     n = ch.int(4, 30 if tier == "quick" else 60)
     for _ in range(n):
-        k = ch.weighted([(5, "apply"), (3, "applicable"), (2, "ground"), (2, "reground"), (2, "state"), (2, "print"), (2, "inplace_effect"), (1, "parse_domain"),
+        k = ch.weighted([(5, "apply"), (3, "applicable"), (2, "ground"), (2, "reground"), (1, "reexport"), (2, "state"), (2, "print"), (2, "inplace_effect"), (1, "parse_domain"),
                          (1, "export_domain"), (1, "export_trajectory"), (1, "combine"), (1, "fresh_domain")])
         op = {"op": k, "d": ch.int(0, 3), "s": ch.int(0, 7), "o": ch.int(0, 7), "c": ch.int(0, 7)}
         if k == "apply":
